@@ -44,25 +44,42 @@ NsName      == [t |-> "str", cls |-> "nsname", m |-> FALSE, lab |-> "ns", o |-> 
 
 GetMoreCmd == Obj(<< <<"getMore", Num("env")>>, <<"collection", NsName>>, <<"$db", NsName>> >>)
 
+\* holder variants with a damaged envelope (C04: nothing may change; C07: nothing may crash)
+BadHolders == {"commandStr", "commandArr", "commandNull", "commandNum", "cmdArr", "origStr"}
 Attr(env, cmdDoc) ==
-  Obj(   (IF env.nsrel = "none" THEN << >> ELSE << <<"ns", NsLeaf(env.nsrel)>> >>)
+  Obj(   (CASE env.nsrel = "none"  -> << >>
+            [] env.nsrel = "nsnum" -> << <<"ns", Num("env")>> >>
+            [] OTHER               -> << <<"ns", NsLeaf(env.nsrel)>> >>)
       \o << <<"remote", Str("ip", "remote")>> >>
       \o (CASE env.holder = "command" -> << <<"command", cmdDoc>> >>
             [] env.holder = "cmd"     -> << <<"cmd", cmdDoc>>, <<"error", Lit("E11000 duplicate key")>> >>
             [] env.holder = "originatingCommand" -> << <<"command", GetMoreCmd>>, <<"originatingCommand", cmdDoc>> >>
-            [] env.holder = "all"     -> << <<"originatingCommand", cmdDoc>>, <<"cmd", cmdDoc>>, <<"command", cmdDoc>> >>)
+            [] env.holder = "all"     -> << <<"originatingCommand", cmdDoc>>, <<"cmd", cmdDoc>>, <<"command", cmdDoc>> >>
+            [] env.holder = "commandStr"  -> << <<"command", Str("envstr", "env")>> >>
+            [] env.holder = "commandArr"  -> << <<"command", Arr(<<cmdDoc>>)>> >>
+            [] env.holder = "commandNull" -> << <<"command", Null("env")>>, <<"cmd", cmdDoc>> >>
+            [] env.holder = "commandNum"  -> << <<"command", Num("env")>> >>
+            [] env.holder = "cmdArr"      -> << <<"cmd", Arr(<<cmdDoc>>)>>, <<"command", cmdDoc>> >>
+            [] env.holder = "origStr"     -> << <<"originatingCommand", Str("envstr", "env")>>, <<"command", cmdDoc>> >>)
       \o << <<"planSummary", Str("plan", "plan")>>,
             <<"keysExamined", Num("env")>>,
+            <<"appName", Str("envstr", "env")>>,
+            <<"locks", Obj(<< <<"Global", Obj(<< <<"acquireCount", Obj(<< <<"r", Num("env")>> >>)>> >>)>> >>)>>,
+            <<"flowControl", Arr(<< Arr(<< Obj(<< <<"filter", Obj(<< <<"uf1", Str("envstr", "env")>> >>)>> >>) >>) >>)>>,
             <<"durationMillis", Num("env")>> >>)
 
-Line(env, cmdDoc) ==
-  Obj(<< <<"t", Obj(<< <<"$date", Lit("2025-05-30T09:47:39.001+00:00")>> >>)>>,
-         <<"s", Lit("I")>>,
-         <<"c", Lit(env.comp)>>,
-         <<"id", Num("env")>>,
-         <<"ctx", Lit("conn42")>>,
-         <<"msg", Lit(env.msg)>>,
-         <<"attr", Attr(env, cmdDoc)>> >>)
+\* attrKind: "obj" (the usual), or a line whose attr is missing / not a document
+LineWith(env, attrVal, hasAttr) ==
+  Obj(   << <<"t", Obj(<< <<"$date", Lit("2025-05-30T09:47:39.001+00:00")>> >>)>>,
+            <<"s", Lit("I")>>,
+            <<"c", Lit(env.comp)>>,
+            <<"id", Num("env")>>,
+            <<"ctx", Str("envstr", "env")>>,
+            <<"msg", Lit(env.msg)>> >>
+      \o (IF hasAttr THEN << <<"attr", attrVal>> >> ELSE << >>)
+      \o << <<"tags", Arr(<< Str("envstr", "env") >>)>> >>)
+
+Line(env, cmdDoc) == LineWith(env, Attr(env, cmdDoc), TRUE)
 
 DefaultEnv == [comp |-> "COMMAND", msg |-> "Slow query", holder |-> "command", nsrel |-> "nseq"]
 
